@@ -13,8 +13,8 @@ buffer (the truncated bytes) and what it returns (the full length).
 namespace Mdsort.Model
 open Mdsort
 
-/-- `"/.mdsort.conf"` (13 bytes). -/
-def confSuffix : Bytes := [47, 46, 109, 100, 115, 111, 114, 116, 46, 99, 111, 110, 102]
+/-- The literal part of the format `"%s/.mdsort.conf"` of `defaultconf` (regenerated from mdsort.c: `Gen.defaultconfSuffix`). -/
+def confSuffix : Bytes := Gen.defaultconfSuffix
 
 /-- `snprintf(buf, siz, fmt, ...)` whose format and arguments produce `s`: what the buffer holds afterwards (at most
 `siz - 1` bytes, then the NUL) and the return value (the length that was needed). -/
@@ -43,8 +43,15 @@ inductive StartErr where
   | noHome | homeTooLong | tmpdirTooLong | tzTooLong | confTooLong
 deriving Repr, DecidableEq
 
-/-- `sizeof(env->ev_tz.t_buf)`. -/
-def TZ_BUF : Nat := 256
+/-- `sizeof(env->ev_tz.t_buf)` (extern.h `t_buf[256]`, regenerated: `Gen.tzBufSize`). -/
+def TZ_BUF : Nat := Gen.tzBufSize
+
+/-- `env->ev_tz.t_state` as `readenv` sets it: `TZ_STATE_LOCAL` (0) when TZ is unset, `TZ_STATE_UTC` (1) when it is empty,
+`TZ_STATE_SET` (2) otherwise. -/
+def tzState : Option Bytes → Nat
+  | none => 0
+  | some [] => 1
+  | some (_ :: _) => 2
 
 /-- Where the home directory comes from: `getenv("HOME")`, or the password entry when that is unset or empty. -/
 def homeSource (raw : RawEnv) : Option Bytes :=
@@ -64,10 +71,10 @@ def readenv (raw : RawEnv) : Except StartErr (Bytes × Bytes × Option Bytes) :=
   match homeSource raw with
   | none => .error .noHome                                       -- errx(1, "cannot find home directory")
   | some p =>
-    match strlcpyFits PATH_MAX p with
+    match strlcpyFits Gen.evHomeSize p with                    -- sizeof(env->ev_home)
     | none => .error .homeTooLong
     | some home =>
-      match strlcpyFits PATH_MAX (tmpSource raw) with
+      match strlcpyFits Gen.evTmpdirSize (tmpSource raw) with   -- sizeof(env->ev_tmpdir)
       | none => .error .tmpdirTooLong
       | some tmpdir =>
         match raw.tz with
@@ -86,7 +93,7 @@ def startPaths (raw : RawEnv) (fOpt : Option Bytes) : Except StartErr (Bytes × 
     match fOpt with
     | some f => .ok (home, tmpdir, f)
     | none =>
-      match defaultconf PATH_MAX home with
+      match defaultconf Gen.defaultconfSize home with           -- sizeof(path)
       | none => .error .confTooLong
       | some c => .ok (home, tmpdir, c)
 
